@@ -130,7 +130,9 @@ CHECKS = {
               "under the driver mutex, taken at most once per Open/Close (skeletons regenerated from driver.go), so every schedule is an "
               "operation list. Tied to the code by random well-formed histories vs the extracted state machine (fresh process each), "
               "database/sql scenarios with pools 1..4, 16 goroutines' first use, lock probes, relative and absolute data source names; the "
-              "name parsing of Open/openFile is modelled (Dsn.v: the cache key determines the options). Partial: database/sql's pool policy is trusted."),
+              "name parsing of Open/openFile is modelled (Dsn.v: the cache key determines the options; url.ParseQuery with percent-decoding, "
+              "DsnEscape.v: unescape undoes QueryEscape on every byte string and is the identity on escape-free text), histories also over the same "
+              "options spelled differently. Partial: database/sql's pool policy is trusted."),
         design="5/C17", technique="Coq proof (state-machine invariant with exact counting; lockset soundness) + source-to-skeleton translator + " + T_DIFF),
     "C18": dict(
         text=("Theorems: (Props/C18.v, AddRowConc.v) for every schedule of any number of threads executing AddRow as micro-steps under a mutex, "
